@@ -491,15 +491,13 @@ def propagate_MCMC(
     cummat = _get_cummat(trajs=trajs, lagtime=lagtime)
 
     # do not convert for pytest coverage
-    return shift_data(
+    return trajs.states[
         _propagate_MCMC(  # pragma: no cover
             cummat=cummat,
             start=idx_start,
             steps=steps,
-        ),
-        np.arange(trajs.nstates),
-        trajs.states,
-    )
+        )
+    ]
 
 
 @numba.njit
